@@ -541,6 +541,7 @@ type analysis struct {
 	rules    map[string]*Rule
 	nullable map[string]bool
 	recExprs []*Node
+	inThrow  bool
 }
 
 func (a *analysis) nullableN(n *Node) bool {
@@ -596,9 +597,14 @@ func (a *analysis) first(n *Node, out map[string]bool) {
 		a.first(n.Kids[0], out)
 		a.first(n.Kids[1], out)
 	case KThrow:
+		if a.inThrow {
+			return // already expanding the recovery expressions
+		}
+		a.inThrow = true
 		for _, rc := range a.recExprs {
 			a.first(rc, out)
 		}
+		a.inThrow = false
 	}
 }
 
